@@ -9,6 +9,7 @@ import Pyunicorn.Lemmas.NsiComp
 import Pyunicorn.Lemmas.NsiCompInv
 import Pyunicorn.Lemmas.NsiCompArenas
 import Pyunicorn.Lemmas.NsiCompConn
+import Pyunicorn.Lemmas.NsiCompFold
 import Pyunicorn.Lemmas.NsiBetwKernel
 import Pyunicorn.Model.NsiMeasures
 /-!
@@ -786,6 +787,101 @@ example : newmanWrapped compG true = some [9, 9, 16, 16, 4] ∧
     newmanWrapped (split compG 2 (1/4)) true = some [9, 9, 16, 16, 4, 16] ∧
     newmanWrapped (split compG 4 (1/4)) true = some [9, 9, 16, 16, 4, 4] ∧
     newmanWrapped (split compG 4 (1/4)) false = some [0, 0, 0, 0, 0, 0] := by
+  decide +kernel
+
+
+/-! ## Round 5c: the component loop with copy-back stores the per-node value -/
+
+/-- **`perComponent` = `perNode`.**  The component loop of `nsi_newman_betweenness` /
+`nsi_arenas_betweenness` (`result = zeros(N)`; for every component of
+`graph.connected_components()`: the value for an isolated node, or the measure `f` of
+`components.subgraph(c)` copied back by `result[node] = vals[j]`), on every undirected network,
+for every measure `f` and every isolated-node value `single`: if the loop returns `res`, then
+`res` has `N` entries and entry `a` is `perNode … a` — the value of `a`'s own component at `a`'s
+position in it.  (Until round 5b a per-case flag of the driver.)  The wrapper theorems
+(`nsi_newman_betweenness_wrapper_split`, `nsi_arenas_betweenness_wrapper_split*`) are about that
+per-node value. -/
+theorem per_component_loop_eq_per_node (G : Gr) (hsym : ∀ i j, G.adj i j = G.adj j i)
+    (single : Nat → Rat) (f : Gr → Option (List Rat)) (res : List Rat)
+    (h : perComponent G single f = some res) :
+    res.length = G.n ∧ ∀ a, a < G.n → perNode G single f a = some (res.getD a 0) :=
+  perComponent_eq_perNode G hsym single f res h
+
+/-- the loop fails (a singular system) only if the measure fails on the component of some node -/
+theorem per_component_loop_fails_with_a_component (G : Gr) (single : Nat → Rat)
+    (f : Gr → Option (List Rat)) (h : perComponent G single f = none) :
+    ∃ a, a < G.n ∧ perNode G single f a = none :=
+  perComponent_none G single f h
+
+/-- `graph.connected_components()` of an undirected network as the model lists it is a partition
+into the components: the component of every node is listed, and two listed components that share
+a node are the same list -/
+theorem component_list_is_partition (G : Gr) (hsym : ∀ i j, G.adj i j = G.adj j i) :
+    (∀ a, a < G.n → compNodes G a ∈ compList G) ∧
+    (∀ c1 ∈ compList G, ∀ c2 ∈ compList G, ∀ x, x ∈ c1 → x ∈ c2 → c1 = c2) ∧
+    (∀ a x, a < G.n → x ∈ compNodes G a → compNodes G x = compNodes G a) :=
+  ⟨fun a ha => compNodes_mem_compList G hsym a ha,
+   fun c1 h1 c2 h2 x hx1 hx2 => compList_overlap G hsym c1 c2 h1 h2 x hx1 hx2,
+   fun a x ha hx => compNodes_eq_of_mem G hsym a x ha hx⟩
+
+/-- the copy-back `for j, node in enumerate(nodes): result[node] = vals[j]` on distinct nodes
+inside the result: length kept, `result[node] = vals[position of node]`, all other entries kept -/
+theorem copy_back_spec (res : List Rat) (nodes : List Nat) (vals : List Rat) (hnd : nodes.Nodup)
+    (hlt : ∀ x ∈ nodes, x < res.length) :
+    (copyBack res nodes vals).length = res.length ∧
+    (∀ a, a ∈ nodes → (copyBack res nodes vals).getD a 0 = vals.getD (nodes.idxOf a) 0) ∧
+    (∀ a, a ∉ nodes → (copyBack res nodes vals).getD a 0 = res.getD a 0) :=
+  ⟨copyBack_length res nodes vals hnd hlt, copyBack_mem res nodes vals hnd hlt,
+   copyBack_not_mem res nodes vals hnd hlt⟩
+
+/-- the two public methods: what `newmanWrapped` / `arenasWrapped` return is, entry by entry, the
+per-node value (exactly the driver's former flag `pernode`, for all inputs) -/
+theorem nsi_newman_wrapper_eq_per_node (G : Gr) (hsym : ∀ i j, G.adj i j = G.adj j i)
+    (ends : Bool) (res : List Rat) (h : newmanWrapped G ends = some res) :
+    res.length = G.n ∧
+    ∀ a, a < G.n → perNode G (newmanSingle G ends) (newmanCompF ends) a = some (res.getD a 0) :=
+  perComponent_eq_perNode G hsym _ _ res ((newmanWrapped_eq G ends).symm.trans h)
+
+theorem nsi_arenas_wrapper_eq_per_node (G : Gr) (hsym : ∀ i j, G.adj i j = G.adj j i)
+    (twin excl : Bool) (res : List Rat) (h : arenasWrapped G twin excl = some res) :
+    res.length = G.n ∧
+    ∀ a, a < G.n → perNode G (fun _ => 0) (arenasCompF twin excl) a = some (res.getD a 0) :=
+  perComponent_eq_perNode G hsym _ _ res ((arenasWrapped_eq G twin excl).symm.trans h)
+
+/-- **from the per-node value to the returned array**: if the per-node values of a measure are
+node-splitting invariant (what the wrapper theorems prove), the arrays the component loop returns
+on the network and on its split copy agree on untouched nodes and both twins carry `v`'s entry -/
+theorem per_component_loop_split (G : Gr) (hsym : ∀ i j, G.adj i j = G.adj j i) (v : Nat)
+    (p : Rat) (hv : v < G.n) (single single' : Nat → Rat) (f : Gr → Option (List Rat))
+    (r r' : List Rat) (hr : perComponent G single f = some r)
+    (hr' : perComponent (split G v p) single' f = some r')
+    (hinv : ∀ a, a < G.n + 1 →
+      perNode (split G v p) single' f a = perNode G single f (collapse G.n v a)) :
+    r'.length = r.length + 1 ∧
+    (∀ a, a < G.n → r'.getD a 0 = r.getD a 0) ∧ r'.getD G.n 0 = r.getD v 0 := by
+  have hl := (perComponent_eq_perNode G hsym single f r hr).1
+  have hl' := (perComponent_eq_perNode (split G v p) (split_adj_symm G v p hsym) single' f r'
+    hr').1
+  refine ⟨by rw [hl, hl']; rfl, fun a ha => ?_, ?_⟩
+  · have := perComponent_split_of_perNode G hsym v p single single' f r r' hr hr' hinv hv a
+      (by omega)
+    rw [collapse_lt _ _ _ ha] at this; exact this
+  · have := perComponent_split_of_perNode G hsym v p single single' f r r' hr hr' hinv hv G.n
+      (by omega)
+    rw [collapse_self] at this; exact this
+
+/-- non-vacuity: on links 0–1, 2–3 | node 4 alone the loop returns five entries, each the per-node
+value; and the hypothesis "undirected" is needed — with the single directed link 1 → 0 node 1
+reaches node 0 but is the first node of no listed component, so the loop leaves its entry 0 -/
+def dirG : Gr :=
+  { n := 2, adj := fun i j => (i, j) ∈ [(1, 0)], w := fun _ => 1, la := fun _ _ _ => 0,
+    grp := fun _ _ => false, dist := fun _ _ => none }
+
+example : newmanWrapped compG true = some [9, 9, 16, 16, 4] ∧
+    (List.range 5).map (perNode compG (newmanSingle compG true) (newmanCompF true))
+      = [some 9, some 9, some 16, some 16, some 4] ∧
+    perComponent dirG (fun _ => 5) (fun H => some (List.replicate H.n 7)) = some [5, 0] ∧
+    perNode dirG (fun _ => 5) (fun H => some (List.replicate H.n 7)) 1 = some 7 := by
   decide +kernel
 
 
